@@ -346,6 +346,7 @@ func (e *Evaluator) evalAssignment(assignment *parser.AssignmentStmt) error {
 	if err != nil {
 		return err
 	}
+	val = copyOrRef(val) // basic values are copied on assignment, as in evalDecl
 	switch n := assignment.Target.(type) {
 	case *parser.Var:
 		e.scope.update(n.Name, val)
